@@ -67,14 +67,15 @@ class Termination(explore.Scenario):
         role, life, cause = P["role"], P["life"], P["cause"]
         obs = rt.observations
         T = shims.Thread
-        n = node.Node(rt, role, watchdog=(4 if cause == "close-silent" else 30))
+        n = node.Node(rt, role, watchdog=(4 if cause == "close-silent" else 30), transport=P.get("transport", "tcp"))
         d = n.diameter
         obs.update(reached=False, consumer_returned=None, restart=None)
         consumer_out = {}
 
         # ---- reach the life point (deterministic prefix) --------------------------------------------------
         def start_node():
-            if role == "server":
+            # the SCTP client connects in blocking mode: start() returns only once the peer has accepted
+            if role == "server" or P.get("transport") == "sctp":
                 t = T(target=n.start, name="app-start")
                 t.start()
                 return t
@@ -254,6 +255,10 @@ class Termination(explore.Scenario):
             obs["cause_raised"] = f"{type(e).__name__}: {e}"
         # ---- quiescence ---------------------------------------------------------------------------------------
         n.settle(rt.stall_time + 5.0)
+        if P.get("transport") == "sctp" and life == "connecting" and cause == "close-early-silent":
+            # the application thread is inside the blocking connect() until the kernel gives up on the silent peer
+            from vk.vrt import fakenet
+            n.settle(fakenet.SCTP_CONNECT_TIMEOUT)
         a = assoc1
         lib_alive = [f"{t.name}@{t.wait_label}" for t in rt.threads
                      if t.library and t.state != "done" and not t.name.startswith(("app-consumer", "app-sender"))]
@@ -291,7 +296,7 @@ class Termination(explore.Scenario):
         obs = rt.observations
         if rt.verdict in ("not-applicable",):
             return []
-        shape = f"{P['role']}:{P['life']}:{P['cause']}"
+        shape = f"{P['role']}:{P['life']}:{P['cause']}" + (":sctp" if P.get("transport") == "sctp" else "")
         if P["life"] == "starting" and (rt.verdict == "handshake-failed" or not obs.get("reached")):
             died = [(t.name, type(t.exc).__name__) for t in rt.crashed_threads() if t.library]
             return [(f"C08:start-never-opens:{shape}", f"start() with a willing peer did not reach Open ({rt.verdict}); threads "
@@ -343,7 +348,19 @@ def all_cases():
                 yield dict(role=role, life=life, cause=cause)
 
 
+def sctp_cases():
+    """The SCTP transport classes (fake pysctp over the same virtual network): they override start(), _read(),
+    _write() and test_connection(); everything else is shared with the TCP classes."""
+    for p in all_cases():
+        yield dict(p, transport="sctp")
+
+
 def plan(tier):
+    for p in sctp_cases():
+        key = (p["role"], p["life"], p["cause"])
+        deep_sctp = {("client", "connecting", "refuse"), ("client", "open-outbound", "rst"), ("server", "open-idle", "eof"),
+                     ("client", "starting", "close")}
+        yield p, (1 if tier == "thorough" and key in deep_sctp else 0)
     deep = {("client", "open-idle", "close"), ("server", "open-consumer", "eof"), ("server", "open-idle", "dpr"),
             ("client", "open-outbound", "close"), ("client", "await-cea", "eof"), ("server", "closing", "eof"),
             ("client", "open-sender", "close"), ("server", "open-sender", "eof"), ("server", "open-outbound", "rst"),
